@@ -42,7 +42,7 @@ func genFieldTy(r *Rng) fieldTy {
 }
 
 var apiTags = []string{"", "attr", "attr", "attr", "rel", "rel,", "rel,t", "rel,t", "rel,t,inv", "rel,a,b,c", "foo", "attr,x", "rel,,", "relx", "relations,x", "attrs", "Attr"}
-var jsonTags = []string{"", "id", "a", "b", "a", "c", "d"}
+var jsonTags = []string{"", "id", "a", "b", "a", "c", "d", "n,omitempty", "a,string"}
 
 type structShape struct {
 	fields []reflect.StructField
